@@ -7,7 +7,7 @@ from concurrent.futures import ThreadPoolExecutor
 
 VERIF = os.path.dirname(os.path.dirname(os.path.abspath(__file__)))
 REPO = os.environ.get("VERIF_REPO", "/repo")
-BUILD = os.path.join(VERIF, "build") if REPO == "/repo" else os.path.join(VERIF, "build", "alt_%d" % os.getpid())
+BUILD = os.path.join(VERIF, "build") if REPO == "/repo" else os.path.join(VERIF, "build", "alt_" + os.environ.get("VERIF_BUILD_TAG", str(os.getpid())))
 GUARD = "SECP256K1_ZKP_VERIF"
 
 CFG_DEFS = {
